@@ -482,7 +482,7 @@ pub struct EvalState<'a> {
 /// Maximum nesting (parentheses, unary minus, function calls) of an expression.
 /// The parser is recursive; without a bound a long run of '(' or '-' exhausts
 /// the stack and aborts the process.
-const MAX_EXPR_DEPTH: usize = 200;
+const MAX_EXPR_DEPTH: usize = 100;
 
 impl<'a> EvalState<'a> {
     fn new(
